@@ -72,6 +72,38 @@ class BindInterp(Interp):
         return st
 
 
+def container_scoping_rule(prog, chk, m=None, rid="R5", primary=True):
+    if m is None:
+        m = model(prog)
+    r5 = chk.rule(rid + "-container-scoping", "loop numbers and item names are unique only within a container: in every statement (and "
+                  "sub-select) each reference to loop / loop_item / item_value is tied to a container - its container_id is equated "
+                  "with a parameter, or joined on container_id to a reference that is", floor=15, primary=primary)
+    n_refs = 0
+    stmts = dict((f, e["sql"]) for f, e in m.statements.items())
+    # statements prepared ad hoc (no dedicated field), e.g. GET_LOOP_VALUES_SQL
+    for fn in prog.all_functions():
+        for (b, i, r, n) in fn.calls_to("sqlite3_prepare_v2"):
+            if len(n.get("args", [])) > 1:
+                t = literal_text(n["args"][1])
+                if t and t not in stmts.values():
+                    stmts["%s@L%s" % (fn.name, n.get("l"))] = t
+    for name, sql in sorted(stmts.items()):
+        for blk_i, (refs, unanchored) in enumerate(container_scoping(sql)):
+            for (tbl, alias) in refs:
+                n_refs += 1
+                key = "%s#%d:%s%s" % (name, blk_i, tbl, (" " + alias) if alias and alias != tbl else "")
+                if (tbl, alias) in unanchored:
+                    r5.violation("internal/sql.h", name, 0, "unscoped-table:%s:%s" % (name, tbl),
+                                 "in statement %s a reference to `%s`%s is not restricted to a container (no `container_id = ?`, no join on "
+                                 "container_id to a restricted reference) in its query block: loop numbers / names of other containers "
+                                 "match as well.  SQL: %s" % (name, tbl, (" (alias %s)" % alias) if alias and alias != tbl else "", " ".join(sql.split())[:200]))
+                else:
+                    r5.ok(key, "tied to a container")
+    if n_refs < 15:
+        raise Broken("only %d references to container-scoped tables found in the embedded statements" % n_refs)
+
+
+
 def run(prog, chk):
     chk.level = "other"
     chk.explanation = ("The schema and statement layer the data model rests on, decided statically: SQLite's own parser is run "
@@ -300,32 +332,7 @@ def run(prog, chk):
     chk.extra_cov["bind_column_sites"] = len(m.sites)
     chk.extra_cov["raised_messages"] = sorted(raised)
 
-    r5 = chk.rule("R5-container-scoping", "loop numbers and item names are unique only within a container: in every statement (and "
-                  "sub-select) each reference to loop / loop_item / item_value is tied to a container - its container_id is equated "
-                  "with a parameter, or joined on container_id to a reference that is", floor=15)
-    n_refs = 0
-    stmts = dict((f, e["sql"]) for f, e in m.statements.items())
-    # statements prepared ad hoc (no dedicated field), e.g. GET_LOOP_VALUES_SQL
-    for fn in prog.all_functions():
-        for (b, i, r, n) in fn.calls_to("sqlite3_prepare_v2"):
-            if len(n.get("args", [])) > 1:
-                t = literal_text(n["args"][1])
-                if t and t not in stmts.values():
-                    stmts["%s@L%s" % (fn.name, n.get("l"))] = t
-    for name, sql in sorted(stmts.items()):
-        for blk_i, (refs, unanchored) in enumerate(container_scoping(sql)):
-            for (tbl, alias) in refs:
-                n_refs += 1
-                key = "%s#%d:%s%s" % (name, blk_i, tbl, (" " + alias) if alias and alias != tbl else "")
-                if (tbl, alias) in unanchored:
-                    r5.violation("internal/sql.h", name, 0, "unscoped-table:%s:%s" % (name, tbl),
-                                 "in statement %s a reference to `%s`%s is not restricted to a container (no `container_id = ?`, no join on "
-                                 "container_id to a restricted reference) in its query block: loop numbers / names of other containers "
-                                 "match as well.  SQL: %s" % (name, tbl, (" (alias %s)" % alias) if alias and alias != tbl else "", " ".join(sql.split())[:200]))
-                else:
-                    r5.ok(key, "tied to a container")
-    if n_refs < 15:
-        raise Broken("only %d references to container-scoped tables found in the embedded statements" % n_refs)
+    container_scoping_rule(prog, chk, m)
 
     r7 = chk.rule("R7-lookup-accepts-what-lenient-creation-stores", "block and frame creation has a lenient mode (used by the parser "
                   "when an error about the code was accepted) that stores a code without validating it; the look-up by code of the "
@@ -340,6 +347,12 @@ def run(prog, chk):
     from . import c09
     if c09.name_length_limit(prog, r8) < 2:
         raise Broken("cif_is_valid_name: no length comparison of the name found")
+
+    r9 = chk.rule("R9-transactions-balanced", "every API function returns with the transaction depth it was entered with (a nested "
+                  "call that issues a full ROLLBACK or leaves a savepoint open changes what the enclosing operation stores): the "
+                  "balance rule of C05, reported here for the functions that modify the CIF", primary=False, floor=10)
+    from . import c05
+    c05.check_balance(prog, chk, r9)
 
     r6 = chk.rule("R6-null-category-is-not-scalar", "every decision whether a loop category is the scalar category \"\" answers no for "
                   "a NULL category (no category): by the boolean structure of the test, or because the test is only reached "
